@@ -3,7 +3,7 @@
 usage: import_seeded.py <worktree> <m-dir> <id> <property> [cargo args for the demo, e.g. --features scalar-math | --release]"""
 import sys, os, subprocess, json, shutil
 wt, mdir, sid, prop = sys.argv[1:5]
-demo_args = sys.argv[5:]
+demo_args = [a.replace(" ", ",") if i > 0 and sys.argv[5:][i - 1] == "--features" else a for i, a in enumerate(sys.argv[5:])]
 ROOT = os.path.dirname(os.path.dirname(os.path.abspath(__file__)))
 src = os.path.join(wt, "OUT", mdir)
 
@@ -42,7 +42,9 @@ try:
     log["demo_with_change"] = {"exit": rc, "tail": out[-400:]}
 finally:
     sh("git checkout -- .")
-    os.remove(os.path.join(wt, "examples", "seeded_demo.rs"))
+    for f in (os.path.join(wt, "examples", "seeded_demo.rs"), os.path.join(wt, "seeded_demo.rs.tmp")):
+        if os.path.exists(f):
+            os.remove(f)
     try:
         os.rmdir(os.path.join(wt, "examples"))
     except OSError:
